@@ -329,6 +329,7 @@ def encode_met(m):
     out = []
     off = 0
     ends = []
+    dends = []
     f = m['fields']
     for ti, (d, h) in enumerate(m['times']):
         recs = []
@@ -351,11 +352,15 @@ def encode_met(m):
             recs.append(pack_record(struct.pack('>i', 0)))
         else:
             raise ValueError(kind)
-        for r in recs:
+        for ri, r in enumerate(recs):
             out.append(r)
             off += len(r)
+            if kind == 'wind' and ri == len(recs) - 2:
+                dends.append(off)     # the trailing dummy record carries no data
         ends.append(off)
-    return b''.join(out), {'header_end': 0, 'step_ends': ends}
+        if kind != 'wind':
+            dends.append(off)
+    return b''.join(out), {'header_end': 0, 'step_ends': ends, 'data_ends': dends}
 
 
 def decode_met(buf, kind, nx, ny):
